@@ -177,6 +177,39 @@ mut("ref-singleton-call-uses-try", "C18", "edgegraph/structure/singleton.py",
     "        try:\n            return cls._TrueSingleton__singleton_instances[cls]\n        except KeyError:\n            inst = super(TrueSingleton, cls).__call__(*args, **kwargs)\n            cls._TrueSingleton__singleton_instances[cls] = inst\n            return inst\n",
     "refactor: EAFP lookup (must NOT fire)", also=[])
 
+mut("ref-universe-vertices-returns-tuple", "C12", "edgegraph/structure/universe.py",
+    "        return list(self._vertices)\n\n    def add_vertex",
+    "        return tuple(self._vertices)\n\n    def add_vertex",
+    "refactor: Universe.vertices returns a tuple (immutable instead of detached; must NOT fire)", also=[])
+mut("ref-universes-accessor-returns-tuple", "C12", "edgegraph/structure/base.py",
+    "        return list(self._universes)\n",
+    "        return tuple(self._universes)\n",
+    "refactor: BaseObject.universes returns a tuple (must NOT fire)", also=[])
+mut("ref-nrpickler-deque", "C10", "edgegraph/output/nrpickler.py",
+    "            lws = self.lazywrites\n            self.lazywrites = []\n            while lws:\n                lw = lws.pop(0)\n",
+    "            lws = __import__(\"collections\").deque(self.lazywrites)\n            self.lazywrites = []\n            while lws:\n                lw = lws.popleft()\n",
+    "refactor: the pending-writes queue drained through a deque (O(1) pops; must NOT fire)", also=[])
+mut("ref-bft-uses-list-queue", "C05", "edgegraph/traversal/breadthfirst.py",
+    "    visited = set()\n    queue = collections.deque([start])\n    visited.add(start)\n\n    if (ff_result and ff_result(start)) or (not ff_result):",
+    "    visited = {start}\n    queue = collections.deque()\n    queue.append(start)\n\n    if (ff_result and ff_result(start)) or (not ff_result):",
+    "refactor: ibft initialises its queue differently (must NOT fire)", also=[])
+mut("ref-semisingleton-eafp", "C17", "edgegraph/structure/singleton.py",
+    "            if key not in cls._SemiSingleton__semisingleton_instance_map:\n                cls._SemiSingleton__semisingleton_instance_map[key] = super(\n                    _SemiSingleton, cls\n                ).__call__(*args, **kwargs)\n            return cls._SemiSingleton__semisingleton_instance_map[key]\n",
+    "            try:\n                return cls._SemiSingleton__semisingleton_instance_map[key]\n            except KeyError:\n                inst = super(_SemiSingleton, cls).__call__(*args, **kwargs)\n                cls._SemiSingleton__semisingleton_instance_map[key] = inst\n                return inst\n",
+    "refactor: EAFP lookup in the semi-singleton metaclass (must NOT fire)", also=[])
+mut("ref-matrix-validates-with-any", "C11", "edgegraph/builder/adjmatrix.py",
+    "    for i, row in enumerate(matrix):\n        if len(row) != matrixlen:\n            raise ValueError(",
+    "    for i, row in enumerate(list(matrix)):\n        if not len(row) == matrixlen:\n            raise ValueError(",
+    "refactor: same validation, spelled differently (must NOT fire)", also=[])
+mut("ref-applies-to-setter-local-names", "C19", "edgegraph/structure/universe.py",
+    "        old = self._applies_to\n        self._applies_to = new\n",
+    "        old, self._applies_to = self._applies_to, new\n",
+    "refactor: tuple assignment in the applies_to setter (must NOT fire)", also=[])
+mut("ref-randgraph-comprehension", "C20", "edgegraph/builder/randgraph.py",
+    "        k = min(k, count)\n",
+    "        k = count if k > count else k\n",
+    "refactor: clamp spelled as a conditional (must NOT fire)", also=[])
+
 
 def run(cmd, **kw):
     return subprocess.run(cmd, capture_output=True, text=True, **kw)
